@@ -255,6 +255,14 @@ func lstep(st *lstate, in cOp, out cOut) (bool, *lstate) {
 			return false, st
 		}
 		n.Objs[in.Key2] = lobj{Body: b}
+		if st.Versioned {
+			// a copy is an upload: it gets a version id of its own that leads to the copied bytes
+			if out.VerID == "" || st.IDs[out.VerID] {
+				return false, st
+			}
+			n.IDs[out.VerID] = true
+			n.Vers[in.Key2] = append(n.Vers[in.Key2], lver{out.VerID, b})
+		}
 		return true, n
 	case "list":
 		return out.Status == 200 && sameList(out.List, listOf(st)), st
@@ -446,6 +454,12 @@ func c07Scenarios() []c07Scenario {
 		{name: "versioned-put-put-listver", kinds: []drv.Kind{drv.Mem}, versioned: true,
 			threads: [][]cOp{{{Kind: "put", Key: "k", Body: "A"}}, {{Kind: "put", Key: "k", Body: "BB"}}, {{Kind: "listver"}}},
 			final:   []cOp{{Kind: "listver"}, {Kind: "get", Key: "k"}, {Kind: "delete-undelete-get", Key: "k"}}},
+		{name: "versioned-copy-put-listver", kinds: []drv.Kind{drv.Mem}, versioned: true, setupOps: []cOp{{Kind: "put", Key: "s", Body: "SRC"}},
+			threads: [][]cOp{{{Kind: "copy", Key: "s", Key2: "k"}}, {{Kind: "put", Key: "k", Body: "BB"}}},
+			final:   []cOp{{Kind: "listver"}, {Kind: "get", Key: "k"}}},
+		{name: "versioned-copy-delete-get", kinds: []drv.Kind{drv.Mem}, versioned: true, setupOps: []cOp{{Kind: "put", Key: "s", Body: "SRC"}},
+			threads: [][]cOp{{{Kind: "copy", Key: "s", Key2: "k"}}, {{Kind: "delete", Key: "k"}}},
+			final:   []cOp{{Kind: "get", Key: "k"}}},
 		{name: "versioned-delete-put-get", kinds: []drv.Kind{drv.Mem}, versioned: true, setupOps: []cOp{{Kind: "put", Key: "k", Body: "A"}},
 			threads: [][]cOp{{{Kind: "delete", Key: "k"}}, {{Kind: "put", Key: "k", Body: "BB"}}, {{Kind: "get", Key: "k"}}},
 			final:   []cOp{{Kind: "get", Key: "k"}, {Kind: "list"}}},
